@@ -1,8 +1,15 @@
 //! Runtime-input harness: calls the real scale-info code on generated inputs and prints,
 //! one line per case, the input and the implementation's observed output.
+mod alloc;
 mod gen;
 mod proto;
 mod s_basic;
+mod s_codec;
+mod nodes;
+mod s_registry;
+
+#[global_allocator]
+static GLOBAL: alloc::Counting = alloc::Counting;
 
 use std::io::Write;
 
@@ -70,6 +77,8 @@ fn main() {
                 "interner" => s_basic::replay_interner(line, &mut out),
                 "builder" => s_basic::replay_builder(line, &mut out),
                 "path" => s_basic::replay_path(line, &mut out),
+                "codec" => s_codec::replay_codec(line, &mut out),
+                "registry" => s_registry::replay_registry(line, &mut out),
                 s => Err(format!("no replay for stream {s}")),
             };
             if let Err(e) = r {
@@ -84,6 +93,8 @@ fn main() {
         "interner" => s_basic::interner(&mut rng, n, thorough, &mut out),
         "builder" => s_basic::builder(&mut rng, n, thorough, &mut out),
         "path" => s_basic::path(&mut rng, n, thorough, &mut out),
+        "codec" => s_codec::codec(&mut rng, n, thorough, &mut out),
+        "registry" => s_registry::registry(&mut rng, n, thorough, &mut out),
         s => {
             eprintln!("unknown stream {s}");
             std::process::exit(2)
